@@ -2,13 +2,14 @@
 
 Read from the current source by `ast` (never imported, never executed):
   core/baseisotherm.py   SHORTHANDS, BaseIsotherm._required_params / _unit_params / _reserved_params, __init__ argument names,
-                         the ORDER in which __init__ assigns attributes of self; BaseIsotherm.to_dict statement by statement as a
+                         the ORDER in which __init__ assigns attributes of self; the test of the unit-default loop; BaseIsotherm.to_dict statement by statement as a
                          straight-line program (to_dict_program); for every method of the three isotherm classes the names it binds on
                          the isotherm object (method_assigns: assignments, deletions, loop / with targets, setattr with a literal name,
                          in-place writes of the metadata dict)
   core/pointisotherm.py  PointIsotherm._reserved_params (= Base + [...]), __init__ argument names, attributes assigned by __init__
   core/modelisotherm.py  ModelIsotherm._reserved_params, __init__ argument names, attributes assigned by __init__
-  core/material.py       Material._reserved_params
+  core/material.py       Material._reserved_params; core/material.py + core/adsorbate.py: for EVERY method of Material / Adsorbate the names it
+                         writes on the object and the methods / properties of the class it reaches through self (holder_methods)
   parsing/json.py csv.py excel.py aif.py   _parser_version, _META_DICT (excel: name -> row; aif: tag -> (text, type)), _DATA_DICT, _UNITS_DICT
   parsing/__init__.py    _PARSER_PRECISION
   modelling/*.py         name -> param_names of every model class
@@ -203,6 +204,138 @@ def method_census(cls, path, setters):
     return out
 
 
+def unit_default_rule(cls, path):
+    """the loop of BaseIsotherm.__init__ that fills in unit defaults:
+           for <u>, <d> in self._unit_params.items():
+               if <u> not in <kw>: ...; <kw>[<u>] = <d>
+       -> 'absent' (a default is used only when the keyword is ABSENT; an explicit None - the stored label of a relative pressure or
+       a fraction / percent loading - is kept, which is what the model's constructor does: `getd k kw default`).
+       Any other test (e.g. `<kw>.get(<u>) is None`) or loop body aborts: the model would no longer describe the constructor."""
+    init = None
+    for st in cls.body:
+        if isinstance(st, ast.FunctionDef) and st.name == '__init__':
+            init = st
+    if init is None or init.args.kwarg is None:
+        raise Unsupported(path + ': BaseIsotherm.__init__(**kw) not found')
+    kw = init.args.kwarg.arg
+    loops = [n for n in ast.walk(init) if isinstance(n, ast.For) and isinstance(n.iter, ast.Call) and isinstance(n.iter.func, ast.Attribute)
+             and n.iter.func.attr == 'items' and _self_attr(n.iter.func.value) == '_unit_params']
+    if len(loops) != 1:
+        raise Unsupported(path + ': expected exactly one loop over self._unit_params.items() in __init__')
+    lp = loops[0]
+    bad = Unsupported('%s: unit-default loop outside the understood shape at line %d: %s' % (path, lp.lineno, ast.dump(lp)[:300]))
+    if not (isinstance(lp.target, ast.Tuple) and len(lp.target.elts) == 2 and all(isinstance(e, ast.Name) for e in lp.target.elts)
+            and len(lp.body) == 1 and isinstance(lp.body[0], ast.If) and not lp.body[0].orelse and not lp.orelse):
+        raise bad
+    u, d = lp.target.elts[0].id, lp.target.elts[1].id
+    t = lp.body[0].test
+    if not (isinstance(t, ast.Compare) and len(t.ops) == 1 and isinstance(t.ops[0], ast.NotIn) and isinstance(t.left, ast.Name) and t.left.id == u
+            and isinstance(t.comparators[0], ast.Name) and t.comparators[0].id == kw):
+        raise bad
+    stores = [s_ for s_ in lp.body[0].body if not (isinstance(s_, ast.Expr) and isinstance(s_.value, ast.Call))]      # logger calls aside
+    if len(stores) != 1 or not (isinstance(stores[0], ast.Assign) and len(stores[0].targets) == 1 and isinstance(stores[0].targets[0], ast.Subscript)
+                                and isinstance(stores[0].targets[0].value, ast.Name) and stores[0].targets[0].value.id == kw
+                                and isinstance(stores[0].targets[0].slice, ast.Name) and stores[0].targets[0].slice.id == u
+                                and isinstance(stores[0].value, ast.Name) and stores[0].value.id == d):
+        raise bad
+    return 'absent'
+
+
+def material_merge_rule(cls, path):
+    """the `material` property setter of BaseIsotherm given a dict: a material found in the registry under the same name is
+       completed with `<found>.properties.update(**<value>)` - the values of the DICT (the imported document) win.
+       -> 'document_wins'; any other in-place container call in the setter (setdefault, a loop of item writes ...) aborts."""
+    fn = None
+    for st in cls.body:
+        if isinstance(st, ast.FunctionDef) and st.name == 'material' and any(isinstance(d, ast.Attribute) and d.attr == 'setter' for d in st.decorator_list):
+            fn = st
+    if fn is None or len(fn.args.args) != 2:
+        raise Unsupported(path + ': BaseIsotherm.material setter not found')
+    val = fn.args.args[1].arg
+    upd = 0
+    for n in ast.walk(fn):
+        if isinstance(n, ast.Call) and isinstance(n.func, ast.Attribute) and n.func.attr in _MUTATING_CALLS:
+            f = n.func
+            if f.attr == 'pop' and isinstance(f.value, ast.Name) and f.value.id == val:
+                continue        # value.pop('name', None)
+            if f.attr == 'update' and isinstance(f.value, ast.Attribute) and f.value.attr == 'properties' and not n.args \
+               and len(n.keywords) == 1 and n.keywords[0].arg is None and isinstance(n.keywords[0].value, ast.Name) and n.keywords[0].value.id == val:
+                upd += 1
+                continue
+            raise Unsupported('%s: material setter: in-place call outside the understood shape at line %d: %s' % (path, n.lineno, ast.dump(n)[:200]))
+        if isinstance(n, (ast.Assign, ast.AugAssign)):
+            for t in (n.targets if isinstance(n, ast.Assign) else [n.target]):
+                if isinstance(t, ast.Subscript):
+                    raise Unsupported('%s: material setter: item assignment at line %d' % (path, n.lineno))
+    if upd != 1:
+        raise Unsupported(path + ': material setter: expected exactly one <found>.properties.update(**value)')
+    return 'document_wins'
+
+
+def holder_census(cls, path):
+    """For a class whose objects an isotherm HOLDS (Material, Adsorbate): for EVERY method whose first argument is `self`
+       -> (method, kind, writes, calls)
+       writes: as method_census ('X' bound on the object, 'properties[]' in-place write of the property dict; also recorded when
+               `self.properties` is bound to a local name - the alias could be written through)
+       calls : the methods / properties of the same class the body reaches through `self.X` ('set:X' = assignment through the
+               property setter X; getattr(self, <computed>) = every property getter)
+       (the closure of `writes` over `calls` is computed and judged in Coq)."""
+    setters = set()
+    members = set()
+    for st in cls.body:
+        if isinstance(st, (ast.FunctionDef, ast.AsyncFunctionDef)):
+            members.add(st.name)
+            for d in st.decorator_list:
+                if isinstance(d, ast.Attribute) and d.attr == 'setter':
+                    setters.add(st.name)
+    writes = {}
+    for m, k, names in method_census(cls, path, set()):
+        writes.setdefault((m, k), [])
+        for n in names:
+            if n not in writes[(m, k)]:
+                writes[(m, k)].append(n)
+    out = []
+    for st in cls.body:
+        if not isinstance(st, (ast.FunctionDef, ast.AsyncFunctionDef)):
+            continue
+        allargs = st.args.posonlyargs + st.args.args
+        if not allargs or allargs[0].arg != 'self':
+            continue
+        kind = 'method'
+        for d in st.decorator_list:
+            if isinstance(d, ast.Attribute) and d.attr == 'setter':
+                kind = 'setter'
+            elif isinstance(d, ast.Name) and d.id == 'property':
+                kind = 'property'
+            elif isinstance(d, ast.Attribute) and d.attr in ('getter', 'deleter'):
+                kind = 'setter' if d.attr == 'deleter' else 'property'
+        if st.name == '__init__':
+            kind = 'init'
+        w = list(writes.get((st.name, kind), []))
+        calls = []
+        for n in ast.walk(st):
+            a = _self_attr(n)
+            if a is not None and a in members and isinstance(n.ctx, ast.Load) and a not in calls:
+                calls.append(a)
+            if isinstance(n, ast.Attribute) and isinstance(n.ctx, ast.Store) and _self_attr(n) in setters:
+                # self.X = .. with a property setter X: the setter runs
+                if 'set:' + n.attr not in calls:
+                    calls.append('set:' + n.attr)
+            if isinstance(n, ast.Call) and isinstance(n.func, ast.Name) and n.func.id == 'getattr' and n.args \
+               and isinstance(n.args[0], ast.Name) and n.args[0].id == 'self':
+                # getattr(self, <name>): any property of the class may run
+                for st2 in cls.body:
+                    if isinstance(st2, ast.FunctionDef) and any(isinstance(d, ast.Name) and d.id == 'property' for d in st2.decorator_list):
+                        if st2.name not in calls:
+                            calls.append(st2.name)
+            if isinstance(n, (ast.Assign, ast.AnnAssign)) and n.value is not None and _self_attr(n.value) == 'properties':
+                tg = n.targets if isinstance(n, ast.Assign) else [n.target]
+                if any(isinstance(t, ast.Name) for t in tg) and 'properties[]' not in w:
+                    w.append('properties[]')
+        out.append((st.name, kind, w, calls))
+    return out
+
+
 def to_dict_program(cls, path):
     """BaseIsotherm.to_dict as a straight-line program over ONE dictionary variable, in a closed set of statement shapes:
          D = vars(self).copy()                                   ('vars', '', '')
@@ -370,6 +503,10 @@ def main(src, out):
     add('Definition base_reserved : list string := %s.' % clist(env['BaseIsotherm._reserved_params']))
     add('Definition base_ctor_args : list string := %s.' % clist(bargs))
     add('Definition base_attrs : list string := %s.' % clist(battrs))
+    add('(* BaseIsotherm.__init__ uses the default of a unit parameter only when the keyword is: *)')
+    add('Definition unit_default_when : string := %s.' % cstr(unit_default_rule(base, path)))
+    add('(* the material setter given a dict while a material of that name is registered: *)')
+    add('Definition material_dict_merge : string := %s.' % cstr(material_merge_rule(base, path)))
     if bkw is None:
         raise Unsupported(path + ': BaseIsotherm.__init__ has no **properties')
     census = [('BaseIsotherm', m, k, a) for m, k, a in method_census(base, path, setters)]
@@ -416,6 +553,14 @@ def main(src, out):
     if got is None:
         raise Unsupported(path + ': Material._reserved_params not found')
     add('Definition material_reserved : list string := %s.' % clist(got))
+    holders = [('Material', m, k, w, c) for m, k, w, c in holder_census(cls, path)]
+    tree, path = parse(src, 'core/adsorbate.py')
+    cls = find_class(tree, 'Adsorbate', path)
+    holders += [('Adsorbate', m, k, w, c) for m, k, w, c in holder_census(cls, path)]
+    add('(* the classes whose objects an isotherm holds: (class, method, kind, names written on the object, methods / properties of')
+    add('   the same class reached through self); "properties[]" = the property dictionary is changed in place; ALL methods listed *)')
+    add('Definition holder_methods : list (string * string * string * list string * list string) := [%s].'
+        % '; '.join('(%s, %s, %s, %s, %s)' % (cstr(c), cstr(m), cstr(k), clist(w), clist(cl)) for c, m, k, w, cl in holders))
     # ---- parsers
     tree, path = parse(src, 'parsing/__init__.py')
     prec = None
